@@ -156,6 +156,15 @@ func FuzzKeys(f *testing.F) {
 	}
 	edRaw := fieldBytes(mustFields(w.privM[0]), 2)
 	f.Add(encodeFields([]pbField{{1, protowire.VarintType, protowire.AppendVarint(nil, 1)}, {2, protowire.BytesType, append(append([]byte(nil), edRaw...), edRaw[32:]...)}}), true)
+	// private keys with an edited part: Ed25519 seed half / public half, Secp256k1 scalar
+	for _, pos := range []int{3, 40} {
+		mut := append([]byte(nil), edRaw...)
+		mut[pos] ^= 0x40
+		f.Add(keyEnvelope(1, mut), true)
+	}
+	scMut := append([]byte(nil), fieldBytes(mustFields(w.privM[2]), 2)...)
+	scMut[31] ^= 0x01
+	f.Add(keyEnvelope(2, scMut), true)
 	f.Fuzz(func(t *testing.T, data []byte, private bool) {
 		peer.AdvancedEnableInlining = true
 		for i, k := range w.keys {
